@@ -7,6 +7,18 @@ from .common import MODEL, TYV, hexs, pipe, unhex
 R_NODE = re.compile(r"\( R (\d+) T:([0-9a-f]+) \)")
 
 
+def char_widths(srcs, timeout=3000):
+    """source -> [(hex of one character, display width)] for its non-ASCII and control characters (tyv charw)."""
+    ds = sorted(set(s for s in srcs if any(ord(ch) > 126 or ord(ch) < 32 for ch in s)))
+    res = {}
+    if ds:
+        out = pipe([TYV, "charw"], [hexs(s) for s in ds], timeout=timeout)
+        for s, line in zip(ds, out):
+            t = line.split()
+            res[s] = [(t[i], t[i + 1]) for i in range(0, len(t) - 1, 2)]
+    return res
+
+
 def run_cases(cases, timeout=3000):
     """cases: list of (width, tab, reorder(0/1), source). Returns list of dicts:
     {impl: 'ok'|'err'|'panic', model: 'ok'|'err'|'panic X'|'fuel', doc_eq, out_eq, cnt_eq, impl_out, model_out, ...}"""
@@ -15,6 +27,7 @@ def run_cases(cases, timeout=3000):
     impl = pipe([TYV, "full"], ["%d %d %d %s" % (w, t, r, hexs(src)) for (w, t, r, src) in cases], timeout=timeout)
     mlines = []
     parsed = []
+    cw = char_widths([c[3] for c in cases], timeout)
     for (w, t, r, src), line in zip(cases, impl):
         parts = line.split("\t")
         tree = parts[0]
@@ -26,6 +39,7 @@ def run_cases(cases, timeout=3000):
                     seen.add(m.group(2))
                     widths.append((m.group(2), m.group(1)))
         parsed.append(parts)
+        widths = widths + [x for x in cw.get(src, []) if x[0] not in set(y[0] for y in widths)]
         mlines.append("%d %d %d %d %s %s" % (w, t, r, len(widths), " ".join("%s %s" % x for x in widths), tree))
     model = pipe([MODEL, "conv"], mlines, timeout=timeout)
     res = []
